@@ -255,3 +255,6 @@ PROPS['C10']['level_text'] += SOLVE_TXT + " The frame of the whole suffix is dis
 PROPS['C10']['level_note'] = "Trusted: z3/cvc5, the encoder's heap model, A-BRIDGE. 'Solving again returns identical results' = this frame + the static determinism scan; the repeated-solve sequences themselves are exercised by the bounded executable contracts."
 PROPS['C06']['undecided_clauses'] = [PROPS['C06']['undecided_clauses'][0], "Solver.__init__ (math.log/math.floor) is an assumed contract whose constants are re-computed from the real source by a static obligation; count_transitions and Node.__eq__ are not under contract"]
 PROPS['C06']['level_text'] += SOLVE_TXT + " The only exception the suffix lets escape is the ValueError of the reachability phase, exactly when pruning is on and the reported rp[0] is 0."
+
+PROPS['C05']['undecided_clauses'] = ["optimality w.r.t. the TRUE conditioned rewards in cyclic games (C02's accuracy clause)"]
+PROPS['C05']['level_text'] += " The inclusion 'final strategy within reachability strategy at every Player 1 state' is a discharged postcondition of the solve suffix (through the proved lemmas L_ArgEqR_from, L_FA_from, L_FL_from), for every game without exception."
